@@ -3,7 +3,7 @@ import copy
 import json
 
 from ..base import Ctx, Prop
-from ..common import answer, canon_data, dt_to_us, ev_tuple, hx, mk_event, p_ev, p_list, td_to_us, us_to_dt
+from ..common import answer, canon_data, dt_to_us, ev_tuple, hx, mk_event, p_ev, p_list, p_opt, td_to_us, us_to_dt
 from .. import storegen, storelib
 
 T0 = storegen.T0
@@ -27,8 +27,20 @@ def canon(t):
 class C01(Prop):
     ID = "C01"
     MODULE = "AwProofs.Props.C01"
-    THEOREMS = []
+    THEOREMS = [
+        "AwProofs.C01." + n
+        for n in (
+            "sqlite_roundtrip", "peewee_duration_roundtrip", "peewee_roundtrip", "memory_roundtrip",
+            "insert_assigns_fresh_id_sqlite", "ids_nodup_sqlite", "get_after_insert_sqlite", "bulk_insert_sqlite",
+            "insert_assigns_fresh_id_memory", "ids_nodup_memory", "get_after_insert_memory", "bulk_insert_memory",
+            "insert_assigns_fresh_id_peewee", "ids_nodup_peewee", "get_after_insert_peewee", "bulk_insert_peewee",
+            "separated", "api_preserves_separation", "mutation_preserves_separation", "reachable_separated",
+            "store_owns_copy", "store_owns_copy_step", "client_holds_data",
+            "heap_insert_refines_value_model", "heap_insert_returns",
+        )
+    ]
     WORKERS = 10
+    MODEL_NEEDS_IMPL = True  # ownership traces: mutation steps send the mutated object's observed state
     LEVEL_TEXT = "Lean 4 theorems: codec round trips on the binary64 model, fresh unique ids, read-your-writes, and store/client heap separation"
     LEVEL_NOTE = "trusts: Lean kernel; binary64 model vs hardware (compared every run); JSON text and peewee timestamp text round trips; nested data below the data dict is one heap cell"
     TECHNIQUE = "Lean 4 proof (float error bounds on Rat, heap-separation invariant) + differential correspondence"
@@ -264,13 +276,35 @@ class C01(Prop):
                 res = "err:" + type(ex).__name__
             after = self._observe(store) if k.startswith("mut") else None
             steps.append({"res": res, "changed": (before != after) if before is not None else None,
-                          "before": before if before != after else None, "after": after if before != after else None})
-        return {"steps": steps, "final": self._observe(store)}
+                          "before": before if before != after else None, "after": after if before != after else None,
+                          "cell": self._cell(op, objs, handles, create_data, update_data)})
+        return {"steps": steps, "final": self._observe(store),
+                "objs": [ev_tuple(o) for o in objs], "handles": [storelib.meta_tuple(h) for h in handles]}
+
+    @staticmethod
+    def _cell(op, objs, handles, create_data, update_data):
+        """state of the client object a mutation step touched, as observed on the real object after the
+        step (what the heap model is told the mutation did); None for other steps"""
+        k = op[0]
+        try:
+            if k == "mut":
+                return ev_tuple(objs[op[1]])
+            if k == "mutmeta":
+                return storelib.meta_tuple(handles[op[1]])
+            if k == "mutcreate":
+                return canon_data(create_data)
+            if k == "mutupdate":
+                return canon_data(update_data)
+        except Exception:
+            return None
+        return None
 
     # ---- model ---------------------------------------------------------------------------------------
-    def model_lines(self, case):
-        if case["k"] != "codec":
-            return []
+    FALLBACK = [None, T0, 0, "{}"]
+
+    def model_lines(self, case, io=None):
+        if case["k"] == "own":
+            return self._own_lines(case, io) if case["backend"] == "memory" else []
         pre = f"store {case['backend']} "
         m = {"type": "t", "client": "cl", "hostname": "h", "created_us": T0}
         L = ["store reset", pre + f"create {hx('c')} {storelib.p_meta(m)}"]
@@ -283,9 +317,70 @@ class C01(Prop):
         L.append(pre + "dump")
         return L
 
-    def model_out(self, case, answers):
-        if case["k"] != "codec":
-            return None
+    def _own_lines(self, case, io):
+        """one request per trace step for the heap model of the memory backend (driver area `heap`);
+        a mutation step carries the state of the mutated object as observed on the real object"""
+        b = hx("o")
+        fb = p_ev(self.FALLBACK)
+        L = ["heap reset"]
+        for op, st in zip(case["trace"], io["steps"]):
+            k = op[0]
+            cell = st.get("cell")
+            if k == "create":
+                m = {"name": "nm", "type": "t", "client": "cl", "hostname": "h", "created_us": T0, "data": op[1]}
+                L.append(f"heap create {b} {storelib.p_meta(m)}")
+            elif k == "new":
+                e = op[1]
+                L.append("heap new " + p_ev([e[0], e[1], e[2], canon(e[3])]))
+            elif k == "insert":
+                L.append(f"heap insert {b} {op[1]}")
+            elif k == "bulk":
+                L.append(f"heap bulk {b} {p_list(op[1], str)}")
+            elif k == "mut":
+                w = op[2]
+                if cell is None:  # the real side failed before touching an object (bad index)
+                    L.append(f"heap mut {op[1]} ts 0")
+                elif w in ("data-top", "data-nested", "data-clear"):
+                    L.append(f"heap mut {op[1]} data {hx(cell[3])}")
+                elif w == "data-assign":
+                    L.append(f"heap mut {op[1]} assign {hx(cell[3])}")
+                elif w == "ts":
+                    L.append(f"heap mut {op[1]} ts {cell[1]}")
+                elif w == "dur":
+                    L.append(f"heap mut {op[1]} dur {cell[2]}")
+                else:
+                    L.append(f"heap mut {op[1]} id {p_opt(cell[0])}")
+            elif k == "get":
+                L.append(f"heap get {b} {fb}")
+            elif k == "getbyid":
+                L.append(f"heap getbyid {b} {fb}")
+            elif k == "meta":
+                L.append(f"heap meta {b}")
+            elif k == "buckets":
+                L.append(f"heap buckets {b}")
+            elif k == "mutmeta":
+                if cell is None:
+                    L.append(f"heap mutmeta {op[1]} data -")
+                elif op[2] in ("name", "type"):
+                    L.append(f"heap mutmeta {op[1]} scalars " + " ".join([p_opt(cell[0], hx)] + [hx(x) for x in cell[1:5]]))
+                else:
+                    L.append(f"heap mutmeta {op[1]} data {hx(cell[5])}")
+            elif k == "mutcreate":
+                L.append(f"heap mutcreate {hx(cell if cell is not None else '{}')}")
+            elif k == "update":
+                L.append(f"heap update {b} {hx(canon(op[1]))}")
+            elif k == "mutupdate":
+                L.append(f"heap mutupdate {hx(cell if cell is not None else '{}')}")
+            elif k in ("replacelast", "replace"):
+                L.append(f"heap {k} {b} {op[1]}")
+            else:
+                raise RuntimeError("unknown ownership op " + k)
+        L += ["heap dump", "heap objs", "heap handles", "heap held"]
+        return L
+
+    def model_out(self, case, answers, io=None):
+        if case["k"] == "own":
+            return self._own_out(case, answers) if case["backend"] == "memory" else None
         ids = []
         if not case["bulk"]:
             for a in answers[2:-1]:
@@ -295,9 +390,41 @@ class C01(Prop):
         d = storelib.parse_dump(answers[-1])["c"]["events"]
         return {"ids": ids, "listed": d, "byid": d}
 
+    def _own_out(self, case, answers):
+        n = len(case["trace"])
+        steps = []
+        for op, a in zip(case["trace"], answers[1 : 1 + n]):
+            if a.startswith("err "):
+                steps.append({"res": "err:" + a.split()[1], "changed": False if op[0].startswith("mut") else None,
+                              "held": None, "before": None, "after": None})
+            else:
+                t = answer(a)
+                if op[0].startswith("mut"):
+                    held = t.tok() == "1"
+                    steps.append({"res": "ok", "changed": t.tok() == "1", "held": held, "before": None, "after": None})
+                else:
+                    steps.append({"res": "ok", "changed": None, "held": None, "before": None, "after": None})
+        tail = answers[1 + n :]
+        t = answer(tail[1])
+        objs = t.list(t.ev)
+        t = answer(tail[2])
+        handles = [storelib.read_meta(t) for _ in range(t.int())]
+        return {"steps": steps, "final": storelib.parse_dump(tail[0]), "objs": objs, "handles": handles,
+                "all_held": answer(tail[3]).tok() == "1"}
+
     def same(self, case, io, mo):
-        if case["k"] != "codec":
-            return True
+        if case["k"] == "own":
+            if case["backend"] != "memory":
+                return True  # rows hold values, not references: no heap model (see Props/C01.lean)
+            if len(io["steps"]) != len(mo["steps"]):
+                return False
+            for a, b in zip(io["steps"], mo["steps"]):
+                if a["res"] != b["res"] or a["changed"] != b["changed"]:
+                    return False
+                if b["held"] is False:  # the model says the client mutated an object it does not hold
+                    return False
+            return (io["final"] == mo["final"] and io["objs"] == mo["objs"] and io["handles"] == mo["handles"]
+                    and mo["all_held"])
         return io == mo
 
     # ---- the property --------------------------------------------------------------------------------
